@@ -78,7 +78,17 @@ def run(ctx):
     ctx.floor("C10.4 turn-waiting call sites", n, 3)
 
     # ---- C10.7 the writer abandoned on new_request's error path must not release its successor early
-    shared.writer_drop_waits_turn(ctx, "C10.7")
+    # (decided on the evaluated writer chain, the same evaluation C01.3 uses: whatever the fields are called and however the wait is spelt)
+    import turn_rules as T, engine
+    c2 = engine.Ctx("C10", "quick", facts, 0)
+    T.rule_writer_chain(c2, "x-wait", "C10.7", "x-chain")
+    n7 = 0
+    for o in c2.obs:
+        if o.rule == "C10.7" and ("send-after-own-turn" in o.key or "used-writer" in o.key) or (o.rule == "x-chain" and o.key.endswith("|evaluates") and not o.ok):
+            n7 += 1
+            ctx.obs.append(o)
+    ctx.floor("C10.7 destructor obligations taken from the writer chain", n7, 2)
+    ctx.paths += c2.paths
 
     # ---- C10.6 Expect handling in new_request
     expect_rule(ctx, "C10.6")
